@@ -48,6 +48,9 @@ type c15Cfg struct {
 	// FailedSibling: after the instances were provisioned, one more validator of the process fails to provision (its
 	// configured crl_file does not exist) and is cleaned up
 	FailedSibling bool
+	// Stale: the lists the origin serves are past their nextUpdate already (an issuer which is late; what the validator
+	// does with such a list is not the point here - refreshing goes on)
+	Stale bool
 }
 
 func (c c15Cfg) String() string {
@@ -74,6 +77,9 @@ func (c c15Cfg) String() string {
 	if c.FailedSibling {
 		late += " another-validator-failed-to-provision"
 	}
+	if c.Stale {
+		late += " lists-past-their-nextUpdate"
+	}
 	return fmt.Sprintf("instances=%d intervals=%v phases=%v download=%s script=%q sig=%s background=%v source=%s%s", c.N, c.Intervals, c.Phases, c.Dur, c.Script, sm, c.Background, c.Source, late)
 }
 
@@ -99,8 +105,15 @@ func c15Run(cfg c15Cfg) (o c15Obs) {
 		var ws []*CW
 		files := FreshDir("c15f")
 		defer os.RemoveAll(files)
-		v1 := world.SimpleCRL(p.CA, 1, 801).DER()
-		v2 := world.SimpleCRL(p.CA, 2, 801, 802).DER()
+		mkList := func(n int64, serials ...int64) []byte {
+			sp := world.SimpleCRL(p.CA, n, serials...)
+			if cfg.Stale {
+				sp.ThisUpdate, sp.NextUpdate = vsched.Epoch.Add(-48*time.Hour), vsched.Epoch.Add(-24*time.Hour)
+			}
+			return sp.DER()
+		}
+		v1 := mkList(1, 801)
+		v2 := mkList(2, 801, 802)
 		v2badSpec := world.SimpleCRL(p.CA, 3, 801, 802)
 		v2badSpec.BadSig = true
 		v2bad := v2badSpec.DER()
@@ -345,6 +358,12 @@ func c15Configs(tier string) []c15Cfg {
 				out = append(out, c15Cfg{N: 1, Intervals: []time.Duration{I}, Script: "", Sig: sg, Background: bg, Source: src, OddCDP: I / 2})
 				out = append(out, c15Cfg{N: 2, Intervals: []time.Duration{I, I}, Phases: []time.Duration{time.Second}, Script: "", Sig: sg, Background: bg, Source: src, OddCDP: I / 2})
 			}
+		}
+	}
+	// lists which are past their nextUpdate
+	for _, src := range []string{"crl_files", "crl_urls", "cdp"} {
+		for _, bg := range []bool{false, true} {
+			out = append(out, c15Cfg{N: 1, Intervals: []time.Duration{I}, Script: "", Sig: config.SignatureValidationModeVerify, Background: bg, Source: src, Stale: true})
 		}
 	}
 	// another validator of the process fails to provision
